@@ -21,6 +21,7 @@ import json
 import random
 
 from .. import common as C
+from .. import forms as F
 from .. import gen_graph as G
 from ..oracles import latent_proj as O
 
@@ -43,7 +44,8 @@ ASSUMPTIONS = [
     "networkx topological_sort on a graph mutated during iteration is modelled as the order of the input graph (argued in Model/Latent.lean); correspondence compares results as sets, names invented for new latents are compared by their child sets",
     "in-place mutation: simplify_latent_dag mutates its argument and leaves it half-rewritten when it raises; the model is pure and returns the final graph (runtime clause, not claimed)",
     "taheri_design._get_result: modelled up to the verdict (identify succeeded / Unidentifiable), the four counts and the returned ADMG; `canonicalize` of the returned estimand and the echoed `latents` / `observed` arguments are not modelled; the driver runs the ID model with the model of nx.topological_sort (the verdict does not depend on the order: id_verdict_equiv_congr)",
-    "non-Variable nodes (_assert_variable_nodes TypeError), counterfactual graphs (raise_on_counterfactual) and non-default tag / prefix / start / suffix arguments are outside the model",
+    "non-Variable nodes (_assert_variable_nodes TypeError), counterfactual graphs (raise_on_counterfactual) and a non-default suffix are outside the model",
+    "argument FORMS (harness/forms.py; chosen deterministically per case, stored in the case, tagged form_*): to_latent_variable_dag with prefix / start / tag omitted, None, the defaults written out, or NON-default values (prefix 'lat', start 1 or 3, tag 'is_latent'; the model takes the table of fresh names, so it follows prefix and start; the tag only names the attribute) and from_latent_variable_dag with the matching tag omitted / None / positional / keyword; simplify_latent_dag, evans_simplify, _get_result and from_latent_variable_dag with the tag omitted / None / 'hidden' / a custom key on a DAG tagged accordingly; evans_simplify's extra latents as every collection type, one-shot iterable or bare Variable (`None | Variable | Iterable[Variable]`), no extra latents as omitted / None / empty; _get_result's latents / observed as list / tuple / set / frozenset / dict keys (Collection); the ADMG through every public constructor of NxMixedGraph (order preserving ones for the round trip, whose LV-DAG is compared by name). Independence of the form is a runtime clause decided by correspondence + oracle",
 ]
 EXHAUSTIVE = {"quick": False, "thorough": False}
 LEANCHECK_MODULES = ["Y0.Model.Latent", "Y0.Props.C16"]
@@ -360,7 +362,54 @@ def _corpus_files():
     return out
 
 
+TAG_FORMS = ("omitted", "none", "explicit_default", "custom")
+CUSTOM_TAG = "is_latent"
+LV_ARGS = ("omitted", "omitted", "none", "defaults_explicit", "custom_prefix", "custom_start", "custom_tag", "custom_all")
+LATENTS_FORMS = F.CONTAINERS + (F.SINGLE, F.SINGLE)
+
+
+def _slots(case):
+    op = case["op"]
+    if op == "roundtrip":
+        return {"ctor": F.CTORS_SAME_ORDER, "lv_args": LV_ARGS, "from_tag": ("omitted", "none", "positional", "keyword")}
+    if op == "simplify":
+        return {"tag": TAG_FORMS}
+    if op == "from_lv":
+        return {"tag": TAG_FORMS, "call": ("positional", "keyword")}
+    if op == "evans":
+        return {"ctor": F.CTORS, "tag": TAG_FORMS, "call": ("positional", "keyword"),
+                "latents": LATENTS_FORMS if case.get("extra") else ("omitted", "none", "empty_set", "empty_tuple")}
+    if op == "design":
+        return {"tag": TAG_FORMS, "latents": F.REITERABLE, "observed": F.REITERABLE}
+    return {}
+
+
+def _forms(case):
+    return F.forms_of(case, _slots(case))
+
+
+def _tag_of(fm, key="tag"):
+    """(the node-attribute key the DAG is tagged with, the keyword arguments that tell the callee)"""
+    t = fm.get(key, "omitted")
+    if t == "custom":
+        return CUSTOM_TAG, {"tag": CUSTOM_TAG}
+    return "hidden", {"omitted": {}, "none": {"tag": None}, "explicit_default": {"tag": "hidden"}}[t]
+
+
+def _lv_kwargs(fm):
+    """keyword arguments of to_latent_variable_dag for the recorded form, and (prefix, start, tag) they mean"""
+    a = fm.get("lv_args", "omitted")
+    kw = {"omitted": {}, "none": {"prefix": None, "tag": None}, "defaults_explicit": {"prefix": "u_", "start": 0, "tag": "hidden"},
+          "custom_prefix": {"prefix": "lat"}, "custom_start": {"start": 3}, "custom_tag": {"tag": CUSTOM_TAG},
+          "custom_all": {"prefix": "lat", "start": 1, "tag": CUSTOM_TAG}}[a]
+    return kw, (kw.get("prefix") or "u_", kw.get("start", 0), kw.get("tag") or "hidden")
+
+
 def cases(rng: random.Random, tier: str):
+    return [F.assign(c, _slots(c)) for c in _cases(rng, tier)]
+
+
+def _cases(rng: random.Random, tier: str):
     out = [json.loads(json.dumps(c)) for c in CORPUS] + _corpus_files()
     k = 8 if tier == "quick" else 60
     for _ in range(260 * k):
@@ -482,10 +531,20 @@ def _case_names(case):
     return names, m
 
 
+def _fresh_names(case):
+    """the names to_latent_variable_dag may give to latents, in order, for the prefix / start of the recorded form"""
+    if case["op"] != "roundtrip":
+        names, m = _case_names(case)
+        return [f"u_{i}" for i in range(m + len(names) + 1)]
+    _, (prefix, start, _tag) = _lv_kwargs(_forms(case))
+    g = case["g"]
+    return [f"{prefix}{start + i}" for i in range(len(g["bi"]) + len(G.all_nodes(g)) + 1)]
+
+
 def table(case):
     """sorted universe of names (Python string order == Variable order); index = the model's Nat"""
     names, m = _case_names(case)
-    uni = set(names) | {f"u_{i}" for i in range(m + len(names) + 1)}
+    uni = set(names) | {f"u_{i}" for i in range(m + len(names) + 1)} | set(_fresh_names(case))
     depth = 2 + sum(1 for n in names if n.endswith(SUF))
     for n in list(uni):
         for k in range(1, depth + 1):
@@ -515,7 +574,7 @@ def _V(n):
     return Variable(n)
 
 
-def build_dag(d):
+def build_dag(d, tag="hidden"):
     import networkx as nx
     g = nx.DiGraph()
     lat = set(d["latent"])
@@ -524,23 +583,29 @@ def build_dag(d):
         if n in unt:
             g.add_node(_V(n))
         else:
-            g.add_node(_V(n), hidden=n in lat)
+            g.add_node(_V(n), **{tag: n in lat})
     for u, v in d["edges"]:
         g.add_edge(_V(u), _V(v))
     return g
 
 
-def build_mixed(g):
+def build_mixed(g, ctor="from_edges", seed=0):
     from y0.graph import NxMixedGraph
+    if ctor != "from_edges":
+        graph = F.build_graph(g, ctor, seed=seed, name=lambda s: s)
+        fault = F.constructor_fault(g, graph, ctor, name=lambda s: s)
+        if fault:
+            raise RuntimeError(fault)
+        return graph
     return NxMixedGraph.from_edges(nodes=[_V(n) for n in g["nodes"]], directed=[(_V(u), _V(v)) for u, v in g["di"]],
                                    undirected=[(_V(u), _V(v)) for u, v in g["bi"]])
 
 
-def canon_lv_nx(dag):
+def canon_lv_nx(dag, tag="hidden"):
     nodes = [n.name for n in dag.nodes()]
     edges = [[u.name, v.name] for u, v in dag.edges()]
-    lat = [n.name for n, data in dag.nodes(data=True) if data.get("hidden") is True]
-    unt = [n.name for n, data in dag.nodes(data=True) if "hidden" not in data]
+    lat = [n.name for n, data in dag.nodes(data=True) if data.get(tag) is True]
+    unt = [n.name for n, data in dag.nodes(data=True) if tag not in data]
     return canon_lv(nodes, edges, lat, unt)
 
 
@@ -572,10 +637,10 @@ def canon_mixed(nodes, di, bi):
     return C.canon_graph(["graph", list(nodes), [list(e) for e in di], [sorted(e) for e in bi]])
 
 
-def _lv_parts(dag):
+def _lv_parts(dag, tag="hidden"):
     nodes = [n.name for n in dag.nodes()]
     edges = [(u.name, v.name) for u, v in dag.edges()]
-    lat = [n.name for n, data in dag.nodes(data=True) if data.get("hidden")]
+    lat = [n.name for n, data in dag.nodes(data=True) if data.get(tag)]
     return nodes, edges, lat
 
 
@@ -592,14 +657,14 @@ def _id_verdict(nodes, di, bi, X, Y):
         return "raise:" + type(e).__name__
 
 
-def _proj_checks(case, in_nodes, in_edges, in_lat, out_dag, back, rng):
+def _proj_checks(case, in_nodes, in_edges, in_lat, out_dag, back, rng, tag="hidden"):
     """the projection / separation / ID clauses for a simplification input -> output; returns fail or None"""
     obs, di, bi = O.projection(in_nodes, in_edges, in_lat)
     exp = canon_mixed(obs, di, bi)
     got = canon_mixed_nx(back)
     if got != exp:
         return f"graph read off the simplified DAG differs from the latent projection of the input: expected {exp} got {got}"
-    o_nodes, o_edges, o_lat = _lv_parts(out_dag)
+    o_nodes, o_edges, o_lat = _lv_parts(out_dag, tag)
     if not O.is_acyclic(o_nodes, o_edges):
         return "simplified graph is not acyclic"
     # separation among observed nodes: input DAG vs output DAG vs canonical DAG of the projection
@@ -648,14 +713,15 @@ def _run_simplify(case):
     from y0.graph import NxMixedGraph
     d = case["d"]
     rng = random.Random(case.get("sub", 0))
-    dag = build_dag(d)
+    tag, tkw = _tag_of(_forms(case))
+    dag = build_dag(d, tag)
     in_nodes = list(d["nodes"])
     in_edges = [tuple(e) for e in d["edges"]]
     in_lat = list(d["latent"])
     valid = not d.get("untagged") and O.is_acyclic(in_nodes, in_edges)
     try:
-        res = simplify_latent_dag(dag)
-        names_out = canon_lv_nx(res.graph)
+        res = simplify_latent_dag(dag, **tkw)
+        names_out = canon_lv_nx(res.graph, tag)
         out = neutral_simplify_out(names_out, [v.name for v in res.widows], [v.name for v in res.unidirectional_latents],
                                    [v.name for v in res.redundant], set(in_nodes))
     except _errs() as e:
@@ -665,7 +731,7 @@ def _run_simplify(case):
         return out, None, {}
     if not valid:
         return out, None, {}
-    o_nodes, o_edges, o_lat = _lv_parts(res.graph)
+    o_nodes, o_edges, o_lat = _lv_parts(res.graph, tag)
     obs_in = set(in_nodes) - set(in_lat)
     obs_out = set(o_nodes) - set(o_lat)
     changed = names_out != canon_lv(in_nodes, in_edges, in_lat, [])
@@ -675,36 +741,51 @@ def _run_simplify(case):
     # idempotence: run the real simplifier again on a copy of its own output
     again = copy.deepcopy(res.graph)
     try:
-        res2 = simplify_latent_dag(again)
-        c2 = canon_lv_nx(res2.graph)
+        res2 = simplify_latent_dag(again, **tkw)
+        c2 = canon_lv_nx(res2.graph, tag)
     except _errs() as e:
         return out, f"second simplification raised {type(e).__name__}", info
     if c2 != names_out:
         return out, f"not idempotent: first {names_out} second {c2}", info
     try:
-        back = NxMixedGraph.from_latent_variable_dag(res.graph)
+        back = NxMixedGraph.from_latent_variable_dag(res.graph, **tkw)
     except _errs() as e:
         return out, f"from_latent_variable_dag raised {type(e).__name__} on a simplified DAG", info
-    return out, _proj_checks(case, in_nodes, in_edges, in_lat, res.graph, back, rng), info
+    return out, _proj_checks(case, in_nodes, in_edges, in_lat, res.graph, back, rng, tag), info
 
 
 def _run_roundtrip(case):
     from y0.graph import NxMixedGraph
     g = case["g"]
-    graph = build_mixed(g)
+    fm = _forms(case)
     try:
-        lv = graph.to_latent_variable_dag()
-        back = NxMixedGraph.from_latent_variable_dag(lv)
-    except _errs() as e:
+        graph = build_mixed(g, fm["ctor"], case.get("sub", 0))
+    except Exception as e:  # noqa: BLE001
+        return ["err"], f"constructor {fm['ctor']}: {type(e).__name__} {str(e)[:150]}", {}
+    lkw, (_prefix, _start, tag) = _lv_kwargs(fm)
+    ft = fm["from_tag"]
+    try:
+        lv = graph.to_latent_variable_dag(**lkw)
+        if tag != "hidden" and ft in ("omitted", "none"):
+            ft = "keyword"          # a custom tag has to be named when reading the DAG back
+        if ft == "omitted":
+            back = NxMixedGraph.from_latent_variable_dag(lv)
+        elif ft == "none":
+            back = NxMixedGraph.from_latent_variable_dag(lv, None)
+        elif ft == "positional":
+            back = NxMixedGraph.from_latent_variable_dag(lv, tag)
+        else:
+            back = NxMixedGraph.from_latent_variable_dag(graph=lv, tag=tag)
+    except Exception as e:  # noqa: BLE001 - the round trip is total on mixed graphs
         return ["err"], f"conversion raised {type(e).__name__}", {}
-    out = ["ok", canon_lv_nx(lv), canon_mixed_nx(back)]
+    out = ["ok", canon_lv_nx(lv, tag), canon_mixed_nx(back)]
     V = G.all_nodes(g)
     exp = canon_mixed(V, [tuple(e) for e in g["di"]], [frozenset(e) for e in g["bi"]])
     info = {"isolated": len(V) > len({x for e in g["di"] + g["bi"] for x in e}), "n_bi": len({frozenset(e) for e in g["bi"]})}
     if not (back == graph) or out[2] != exp:
         return out, f"round trip changed the graph: expected {exp} got {out[2]}", info
     # the LV-DAG itself: its projection (path enumeration) must be the graph, latents exogenous
-    n, e, l = _lv_parts(lv)
+    n, e, l = _lv_parts(lv, tag)
     obs, di, bi = O.projection(n, e, l)
     if canon_mixed(obs, di, bi) != exp:
         return out, f"latent projection of to_latent_variable_dag(G) is not G: {canon_mixed(obs, di, bi)}", info
@@ -728,11 +809,21 @@ def _own_lv(g, extra):
 def _run_evans(case):
     from y0.algorithm.simplify_latent import evans_simplify
     g = case["g"]
-    graph = build_mixed(g)
+    fm = _forms(case)
     extra = case.get("extra", [])
     try:
-        r = evans_simplify(graph, latents={_V(x) for x in extra} if extra else None)
-    except _errs() as e:
+        graph = build_mixed(g, fm["ctor"], case.get("sub", 0))
+    except Exception as e:  # noqa: BLE001
+        return ["err"], f"constructor {fm['ctor']}: {type(e).__name__} {str(e)[:150]}", {}
+    _tag, kw = _tag_of(fm)
+    kw = dict(kw)
+    if extra:
+        kw["latents"] = F.varset([_V(x) for x in extra], fm["latents"])
+    elif fm["latents"] != "omitted":
+        kw["latents"] = {"none": None, "empty_set": set(), "empty_tuple": ()}[fm["latents"]]
+    try:
+        r = evans_simplify(graph=graph, **kw) if fm["call"] == "keyword" else evans_simplify(graph, **kw)
+    except Exception as e:  # noqa: BLE001 - total on ADMGs
         return ["err"], f"evans_simplify raised {type(e).__name__}", {}
     out = ["ok", canon_mixed_nx(r)]
     nodes, edges, lat = _own_lv(g, extra)
@@ -747,9 +838,16 @@ def _run_evans(case):
 def _run_from_lv(case):
     from y0.graph import NxMixedGraph
     d = case["d"]
-    dag = build_dag(d)
+    fm = _forms(case)
+    tag, tkw = _tag_of(fm)
+    dag = build_dag(d, tag)
     try:
-        back = NxMixedGraph.from_latent_variable_dag(dag)
+        if fm["call"] == "keyword":
+            back = NxMixedGraph.from_latent_variable_dag(graph=dag, **tkw)
+        elif "tag" in tkw:
+            back = NxMixedGraph.from_latent_variable_dag(dag, tkw["tag"])
+        else:
+            back = NxMixedGraph.from_latent_variable_dag(dag)
         out = ["ok", canon_mixed_nx(back)]
     except _errs():
         return ["err"], None, {}
@@ -767,11 +865,14 @@ def _run_design(case):
     import copy
     from y0.algorithm.taheri_design import _get_result
     d = case["d"]
-    dag = build_dag(d)
+    fm = _forms(case)
+    tag, tkw = _tag_of(fm)
+    dag = build_dag(d, tag)
     lat = [x for x in d["latent"]]
     obs_l = [v for v in d["nodes"] if v not in lat]
     try:
-        r = _get_result(copy.deepcopy(dag), [_V(x) for x in lat], [_V(x) for x in obs_l], _V(case["cause"]), _V(case["effect"]))
+        r = _get_result(copy.deepcopy(dag), F.container([_V(x) for x in lat], fm["latents"]),
+                        F.container([_V(x) for x in obs_l], fm["observed"]), _V(case["cause"]), _V(case["effect"]), **tkw)
         verdict = bool(r[0])
         out = ["ok", str(verdict).lower(), int(r.pre_nodes), int(r.pre_edges), int(r.post_nodes), int(r.post_edges)]
     except _errs() as e:
@@ -789,6 +890,10 @@ def run_python(case):
                        "from_lv": _run_from_lv, "design": _run_design}[op](case)
     d = case.get("d")
     tags = {"op": op, "outcome": out[0], "collision": collides(case)}
+    fm = dict(_forms(case))
+    if op == "evans" and case.get("extra"):
+        fm["latents"] = F.effective(case["extra"], fm["latents"])
+    tags.update(F.tags(fm))
     nontrivial = False
     if d is not None:
         lat = set(d["latent"])
@@ -838,7 +943,7 @@ def request(case):
     uni, rank = table(case)
     primes = [[rank[n], rank[n + SUF]] for n in uni if n + SUF in rank]
     if op == "roundtrip":
-        fresh = [rank[f"u_{i}"] for i in range(len(case["g"]["bi"]) + len(G.all_nodes(case["g"])) + 1)]
+        fresh = [rank[n] for n in _fresh_names(case)]
         return C.enc(["latent", "roundtrip", _enc_graph(case["g"], rank), fresh])
     if op == "simplify":
         return C.enc(["latent", "simplify", _enc_lv(case["d"], rank), primes])
